@@ -3,7 +3,7 @@
 (*  (1) length boundaries: every length-carrying form of BSON (all are      *)
 (*      little-endian int32: string size, binary size, document size,       *)
 (*      array document size) at the byte boundaries of the size field       *)
-(*      (0, 1, 2, 127/128, 255/256/257, 1000) with exactly / one fewer /    *)
+(*      (0, 1, 2, 127/128, 255/256/257, 300) with exactly / one fewer /    *)
 (*      one more payload bytes or elements than declared; documents with    *)
 (*      DISTINCT keys; arrays with the keys "0", "1", ... (digit-count      *)
 (*      boundaries 9/10/11, 99/100/101), a skipped key, a repeated key;     *)
@@ -12,14 +12,16 @@
 (*      an array;                                                           *)
 (*  (3) every strict prefix of every sample document of C07TokBson;         *)
 (*  (4) single-byte mutations of every sample document at every position    *)
-(*      (0, 1, 255, +1, -1, top bit flipped).                               *)
-(* Every input is below 1100 bytes.                                         *)
+(*      (0, 255, +1, top bit flipped).                               *)
+(*  (5) the authoritative corpus BsonCorpusDocs (bsonspec.org examples,     *)
+(*      jsoncons' documented examples, libbson's test documents).          *)
+(* Every input is below 700 bytes.                                          *)
 EXTENDS Naturals, Sequences
 LOCAL INSTANCE C07TokBson
 LOCAL Rep(x, n) == [i \in 1..n |-> x]
 LOCAL LE4(n) == <<n % 256, (n \div 256) % 256, (n \div 65536) % 256, 0>>
 LOCAL Adj(n) == {n} \cup (IF n > 0 THEN {n - 1} ELSE {}) \cup {n + 1}
-LOCAL Counts == {0, 1, 2, 127, 128, 255, 256, 257, 1000}
+LOCAL Counts == {0, 1, 2, 127, 128, 255, 256, 257, 300}
 \* a document whose body (the e_list) is given, with the size field off by delta (a natural number added to sz - sub)
 LOCAL DocOf(body, add, sub) == LE4(4 + Len(body) + 1 + add - sub) \o body \o <<0>>
 LOCAL Doc0(body) == DocOf(body, 0, 0)
@@ -53,7 +55,9 @@ BsonRepInputs ==
   UNION { { StrDoc(n, k) : k \in Adj(n) } : n \in Counts } \cup
   UNION { { BinDoc(n, k) : k \in Adj(n) } : n \in Counts \cup {241, 242, 243, 244, 245} } \cup                 \* 242 -> total size 255
   UNION { { NestDoc(n, k) : k \in Adj(n) } : n \in {0, 233, 234, 235, 236, 237, 238, 239, 240, 241, 242} } \cup  \* inner 255 at 242, outer 255 at 234
-  UNION { { MapDoc(n, k) : k \in Adj(n) } : n \in {0, 1, 2, 15, 16, 62, 63, 64, 255, 256} } \cup
+  UNION { { MapDoc(n, k) : k \in Adj(n) } : n \in {0, 1, 2, 15, 16, 62, 63, 64, 100} } \cup                       \* 62 -> total size 253, 63 -> 257
+  { Doc0(NullBody(62) \o f) : f \in { <<10, 0>>, <<10, 33, 0>>, <<8, 0, 1>> } } \cup                              \* total sizes 255, 256, 256
+  { Doc0(<<3, 97, 0>> \o Doc0(NullBody(n) \o f) \o <<10, 33, 0>>) : n \in {61, 62}, f \in { <<10, 0>>, <<10, 33, 0>> } } \cup   \* the same, nested, then one more member
   UNION { { ArrDoc(n, k) : k \in Adj(n) } : n \in ArrCounts } \cup
   { Doc0(<<4, 97, 0>> \o Doc0(ArrBody(n) \o ArrEl(n + 1))) : n \in ArrCounts } \cup                           \* a skipped key
   { Doc0(<<4, 97, 0>> \o Doc0(ArrBody(n + 1) \o ArrEl(n))) : n \in ArrCounts } \cup                           \* a repeated key
@@ -62,6 +66,7 @@ BsonRepInputs ==
   { DocOf(NullBody(n), 0, d) : n \in {1, 63}, d \in {1, 2, 4} } \cup                                          \* size field too small
   { Doc0(<<t, 97, 0>> \o p) : t \in 0..255, p \in Payloads } \cup
   { Doc0(<<4, 97, 0>> \o Doc0(<<t, 48, 0>> \o p)) : t \in 0..255, p \in Payloads } \cup
+  BsonCorpusDocs \cup
   UNION { { SubSeq(d, 1, k) : k \in 1..(Len(d) - 1) } : d \in BsonSampleDocs } \cup
-  UNION { UNION { { Subst(d, k, x) : x \in {0, 1, 255, (d[k] + 1) % 256, (d[k] + 255) % 256, (d[k] + 128) % 256} } : k \in 1..Len(d) } : d \in BsonSampleDocs }
+  UNION { UNION { { Subst(d, k, x) : x \in {0, 255, (d[k] + 1) % 256, (d[k] + 128) % 256} } : k \in 1..Len(d) } : d \in BsonSampleDocs }
 =============================================================================
